@@ -7,10 +7,10 @@ import Proofs.Network
 import Proofs.Parsers
 namespace Esdt
 
-/-- metadata stored anywhere carries a non-zero nonce (what ESDTNFTCreate produces; an entry whose metadata said nonce 0
-    would be re-saved under the key WITHOUT the nonce suffix) -/
+/-- metadata stored under any token key carries a non-zero nonce (what ESDTNFTCreate produces; an entry whose metadata said
+    nonce 0 would be re-saved under the key WITHOUT the nonce suffix) -/
 def MdPos (A : Accts) : Prop :=
-  ∀ a k t m, A.read a k ≠ [] → decToken (A.read a k) = some t → t.md = some m → m.nonce ≠ 0
+  ∀ a k t m, TokKey k → A.read a k ≠ [] → decToken (A.read a k) = some t → t.md = some m → m.nonce ≠ 0
 
 /-- the sender-side cross-shard effect with two more facts: the entry belongs to the nonce asked for (or says nonce 0),
     and the payload put on the wire is shorter than 2^63 bytes -/
@@ -283,7 +283,7 @@ namespace Esdt
 theorem mdpos_write_nft {A : Accts} (a k : Bytes) (t' : Token) (hA : MdPos A) (hn : NumOK t')
     (hl : (nftStoredForm t').length < two63) (hmd : ∀ m, t'.md = some m → m.nonce ≠ 0) :
     MdPos (A.write a k (nftStoredForm t')) := by
-  intro a2 k2 t0 m hne hdec hm
+  intro a2 k2 t0 m hk2 hne hdec hm
   rw [Accts.read_write] at hne hdec
   split at hne
   · rename_i he
@@ -296,7 +296,7 @@ theorem mdpos_write_nft {A : Accts} (a k : Bytes) (t' : Token) (hA : MdPos A) (h
       exact hmd m hm
   · rename_i he
     rw [if_neg he] at hdec
-    exact hA a2 k2 t0 m hne hdec hm
+    exact hA a2 k2 t0 m hk2 hne hdec hm
 
 theorem args_cons4 {args : List Bytes} {a b d e : Bytes} (h0 : args[0]? = some a) (h1 : args[1]? = some b)
     (h2 : args[2]? = some d) (h3 : args[3]? = some e) : ∃ rest, args = a :: b :: d :: e :: rest := by
@@ -323,7 +323,7 @@ theorem nft_user_cross (env : Env) (c : Call) (A A' : Accts) (out : VMOutput) (c
   obtain ⟨rest, hargs⟩ := args_cons4 h0 h1 h2 h3
   have hnum : NumOK t := decToken_num _ _ hw.old
   obtain ⟨m0, hm0⟩ := Option.isSome_iff_exists.mp hw.hasMeta
-  have hpos : m0.nonce ≠ 0 := hI.mdpos _ _ t m0 hw.present hw.old hm0
+  have hpos : m0.nonce ≠ 0 := hI.mdpos _ _ t m0 (tokKey_nft _ _) hw.present hw.old hm0
   have hnonce : mdNonce t = u64 (beNat nb) := by
     rcases hnon m0 hm0 with h | h
     · exact absurd h hpos
@@ -394,7 +394,7 @@ theorem nft_user_same (env : Env) (c : Call) (A A' : Accts) (out : VMOutput) (ct
   rw [hA'] at hfin
   have hnum : NumOK t := decToken_num _ _ hw.old
   obtain ⟨m0, hm0⟩ := Option.isSome_iff_exists.mp hw.hasMeta
-  have hpos : m0.nonce ≠ 0 := hI.mdpos _ _ t m0 hw.present hw.old hm0
+  have hpos : m0.nonce ≠ 0 := hI.mdpos _ _ t m0 (tokKey_nft _ _) hw.present hw.old hm0
   have hmdt : ∀ md, t.md = some md → md.nonce ≠ 0 := fun md hmd => by rw [hm0] at hmd; cases hmd; exact hpos
   -- the two written slots are different accounts
   have hA1 : A1 = A.write c.caller (nftKey (esdtKeyPrefix ++ tok) (mdNonce t))
